@@ -49,12 +49,24 @@ type nameDef struct {
 }
 
 var (
-	pool     []nameDef
-	byTag    = map[string]*nameDef{}
-	targets  []ipld.Node
-	tsize    []uint64
-	statMode = os.ModeDir | 0o755
-	statTime = time.Unix(1700000000, 5)
+	pool    []nameDef
+	byTag   = map[string]*nameDef{}
+	targets []ipld.Node
+	tsize   []uint64
+	// stat classes: mode/mtime given to WithStat. Their UnixFS Data fields fall
+	// into different size classes (mode field absent/present; mtime seconds 0 /
+	// positive / negative = 1 / 5 / 10 varint bytes; with and without nanos).
+	statClasses = []struct {
+		mode  os.FileMode
+		mtime time.Time
+	}{
+		{}, // 0: no stat
+		{os.ModeDir | 0o755, time.Unix(1700000000, 5)}, // 1 ("/stat")
+		{0, time.Unix(0, 0)},                           // 2: second 0 of the epoch, no nanos, no mode
+		{0o644, time.Unix(0, 999999999)},               // 3: second 0 with nanos, mode
+		{os.ModeDir | 0o700, time.Unix(-1, 0)},         // 4: negative seconds
+		{0, time.Unix(1, 1)},                           // 5: one-byte positive seconds with nanos
+	}
 )
 
 func hashOf(s string) []byte { return internal.HAMTHashFunction([]byte(s)) }
@@ -166,14 +178,16 @@ type cfg struct {
 	maxLinks int
 	thr      string // def | tiny
 	est      string // links | block | off
-	stat     bool
+	stat     int    // index into statClasses, 0 = none
 	v1       bool
 }
 
 func (c cfg) String() string {
 	s := fmt.Sprintf("%s/w%d/ml%d/thr=%s/est=%s", c.layout, c.width, c.maxLinks, c.thr, c.est)
-	if c.stat {
+	if c.stat == 1 {
 		s += "/stat"
+	} else if c.stat > 1 {
+		s += fmt.Sprintf("/stat%d", c.stat)
 	}
 	if c.v1 {
 		s += "/v1"
@@ -188,7 +202,9 @@ func parseCfg(s string) cfg {
 		case i == 0:
 			c.layout = f
 		case f == "stat":
-			c.stat = true
+			c.stat = 1
+		case strings.HasPrefix(f, "stat"):
+			fmt.Sscan(f[4:], &c.stat)
 		case f == "v1":
 			c.v1 = true
 		case strings.HasPrefix(f, "thr="):
@@ -246,8 +262,8 @@ func (c cfg) cidBuilder() cid.Builder {
 
 func (c cfg) opts() []uio.DirectoryOption {
 	o := []uio.DirectoryOption{uio.WithMaxHAMTFanout(c.width), uio.WithMaxLinks(c.maxLinks), uio.WithSizeEstimationMode(c.estMode())}
-	if c.stat {
-		o = append(o, uio.WithStat(statMode, statTime))
+	if c.stat != 0 {
+		o = append(o, uio.WithStat(statClasses[c.stat].mode, statClasses[c.stat].mtime))
 	}
 	if c.v1 {
 		o = append(o, uio.WithCidBuilder(c.cidBuilder()))
@@ -302,10 +318,10 @@ func (c cfg) reload(dserv ipld.DAGService, d uio.Directory) (uio.Directory, erro
 	if err != nil {
 		return nil, err
 	}
-	if c.layout == "hamt" && c.stat {
+	if c.layout == "hamt" && c.stat != 0 {
 		// NewDirectoryFromNode restores mode/mtime from the root; the pure-HAMT
 		// constructor leaves that to the caller, like the other settings
-		nd2.SetStat(statMode, statTime)
+		nd2.SetStat(statClasses[c.stat].mode, statClasses[c.stat].mtime)
 	}
 	nd2.SetMaxLinks(c.maxLinks)
 	nd2.SetMaxHAMTFanout(c.width)
@@ -329,8 +345,8 @@ func linksSize(m map[string]int) int {
 // blockSize serializes an independent dag-pb directory node with these entries.
 func (c cfg) blockSize(m map[string]int) int {
 	var data []byte
-	if c.stat {
-		data = unixfs.FolderPBDataWithStat(statMode, statTime)
+	if c.stat != 0 {
+		data = unixfs.FolderPBDataWithStat(statClasses[c.stat].mode, statClasses[c.stat].mtime)
 	} else {
 		data = unixfs.FolderPBData()
 	}
@@ -928,6 +944,20 @@ func rootInfo(d uio.Directory) (cid.Cid, bool, error) {
 	return nd.Cid(), fsn.Type() == unixfs.THAMTShard, nil
 }
 
+// sizeChangeSign: sign of HAMTDirectory.sizeChange after the last operation.
+// While it is non-negative the HAMT->basic size check is not even consulted
+// (the documented-as-known gate); negative means sizeBelowThreshold was asked.
+func (s *sys) sizeChangeSign() string {
+	h, ok := under(s.dir).(*uio.HAMTDirectory)
+	switch {
+	case !ok:
+		return "n/a"
+	case h.VerifSizeChange() < 0:
+		return "neg"
+	}
+	return "nonneg"
+}
+
 // selfReport reports v with its replay; known findings do not stop the exploration.
 func (s *sys) selfReport(v *eng.Violation) *eng.Violation {
 	v.Replay = map[string]any{"config": s.cfgStr, "ops": append([]string{}, s.path...)}
@@ -960,7 +990,7 @@ func (s *sys) checkC16() *eng.Violation {
 		}
 	}
 	want, why := s.c.ruleSharded(s.model)
-	common := []string{"est", s.c.est, "maxlinks_set", fmt.Sprint(s.c.maxLinks > 0), "reloaded", fmt.Sprint(s.reloaded), "converted_now", fmt.Sprint(s.convertedNow), "was_hamt", fmt.Sprint(s.wasHamt)}
+	common := []string{"est", s.c.est, "maxlinks_set", fmt.Sprint(s.c.maxLinks > 0), "reloaded", fmt.Sprint(s.reloaded), "converted_now", fmt.Sprint(s.convertedNow), "was_hamt", fmt.Sprint(s.wasHamt), "sizechange_after", s.sizeChangeSign()}
 	if sharded != want {
 		s.r.Add("rule_mismatches", 1)
 		det := fmt.Sprintf("config %s, entries {%s} (links-size %d, block-size %d, threshold %d, %d links, maxLinks %d): documented rule says %s (%s) but the root is %s; internal state: %s",
@@ -996,7 +1026,7 @@ func (s *sys) checkC16() *eng.Violation {
 	if !fc.Equals(c) {
 		det := fmt.Sprintf("config %s, entries {%s}: root CID %s after this history, %s for a fresh sorted build of the same entries (both %s); internal state: %s",
 			s.cfgStr, s.modelKey(), c, fc, sk[sharded], s.state())
-		return s.selfReport(eng.V("root-cid-depends-on-history", "", det, s.feats(append(common, "stat", fmt.Sprint(s.c.stat))...)...))
+		return s.selfReport(eng.V("root-cid-depends-on-history", "", det, s.feats(append(common, "stat", fmt.Sprint(s.c.stat != 0))...)...))
 	}
 	return nil
 }
